@@ -14,8 +14,8 @@ def run(run, tier, seed):
                 "of the graph algorithm. non-trivial = precondition holds and >=1 site with >=2 alleles; distinct by scenario")
     run.assumptions = ["the acceptance precondition is the strict one (uniqueness over all derived samples); ancestor-only cases that fail "
                        "are reported under known finding K17", "FASTA/VCF output parsed by the driver",
-                       "TLC is used as evaluator of the relation and of the precondition; design-level model checking covers only Lo.tla's "
-                       "operators through MC_AlignSnp (shared ExpectedBag/CanonCol)"]
+                       "graph construction, extremity nodes, compaction and path enumeration are modelled in LoGraph.tla and replayed into the "
+                       "hooked binary; SNP de-duplication across groups, positioning and output are not: the relation is evaluated on recorded runs"]
     d = vlib.design_check("MC_AlignSnp", "MC_AlignSnp_small", "c17-rel", workers=8, timeout=900)
     run.add_design(d)
     replay_entries(run, tier, seed)
@@ -33,19 +33,19 @@ def run(run, tier, seed):
     finish(run, events, "c17", tier)
 
 
-def replay_entries(run, tier, seed):
+def replay_entries(run, tier, seed, module="MC_LoGraph", tag="c17-graph", nq=400, nt=6000):
     """B for the first two stages of ska lo: MC_LoGraph's scenarios (graph construction + entry nodes, checked by
     TLC against 'the (k-1)-mers flanking each variable site') are run through `ska build -k 5` + `ska lo`; the
     hooked binary logs its entry nodes, which must be the model's."""
     import random, concurrent.futures, skacli
     from props.c11 import run_cmd
-    d = vlib.design_check("MC_LoGraph", "MC_LoGraph_quick" if tier == "quick" else "MC_LoGraph", "c17-graph", workers=8,
+    d = vlib.design_check(module, module + "_quick" if tier == "quick" else module, tag, workers=12,
                           timeout=3000, want_replay=True)
     run.add_design(d)
     behs = d["replay"]
     rng = random.Random(seed)
     rng.shuffle(behs)
-    behs = behs[:200 if tier == "quick" else 3000]
+    behs = behs[:int(os.environ.get("VERIF_LOGRAPH_N", nq if tier == "quick" else nt))]
     sb = skacli.Sandbox("c17g")
 
     def one(args):
@@ -66,6 +66,17 @@ def replay_entries(run, tier, seed):
             want = sorted(beh["entries"])
             if got != want or ent[0]["nodes"] != beh["nodes"]:
                 return {"ok": False, "why": "entry nodes differ", "expected": [want, beh["nodes"]], "actual": [got, ent[0]["nodes"]]}
+            # third stage: the variant groups and indel groups after traversal (hook lo.groups) against LoGraph!FinalGroups /
+            # FinalIndels - entry, exit and the multiset of spelled paths of every group
+            letters = lambda ds: "".join("ACTG"[d] for d in ds)
+            for kind in ("groups", "indels"):
+                real = [h for h in hook if h["ev"] == "lo.groups" and h["kind"] == kind]
+                if len(real) != 1:
+                    return {"ok": False, "why": "no lo.groups event for " + kind}
+                g_real = sorted([g["entry"], g["exit"], sorted(g["seqs"])] for g in real[0]["groups"])
+                g_model = sorted([letters(g["entry"]), letters(g["exit"]), sorted(letters(q) for q in g["seqs"])] for g in beh[kind])
+                if g_real != g_model:
+                    return {"ok": False, "why": "variant %s differ from LoGraph's" % kind, "expected": g_model, "actual": g_real}
             return {"ok": True}
         finally:
             sub.close()
